@@ -519,6 +519,8 @@ def run_prop(prop: Prop, tier: str, seed: int) -> int:
     import random
 
     ctx = Ctx(prop, tier, seed)
+    for old in (VERIF / "replays").glob(f"{prop.id}-*.json"):
+        old.unlink()
     try:
         use_repo()
         rnd = random.Random(seed)
